@@ -84,17 +84,27 @@ func VerifC17Read(v *verifrt.T) {
 	stream := v.Bytes(n, "s")
 	sock := &c17sock{in: append([]byte(nil), stream...), chunk: v.Bound("chunk")}
 	m := &Listener{bufferSize: 4, errorHandler: func(error) bool { return true }, closing: make(chan struct{})}
-	httpL := m.Match(MatchHTTP())
-	anyL := m.Match(MatchAny())
+	// the broker's own chain (HTTP methods, then anything), or two peeking matchers of equal
+	// depth in front of the catch-all (the second one re-reads what the first one recorded)
+	var ls []net.Listener
+	if v.Bool("two-prefix-matchers") {
+		ls = append(ls, m.Match(MatchPrefix("AB")), m.Match(MatchPrefix("CD")), m.Match(MatchAny()))
+	} else {
+		ls = append(ls, m.Match(MatchHTTP()), m.Match(MatchAny()))
+	}
 	var wg sync.WaitGroup
 	wg.Add(1)
 	m.serve(sock, m.closing, &wg)
 	v.Reach("served")
 	var conn net.Conn
-	select {
-	case conn = <-httpL.(muxListener).connections:
-	case conn = <-anyL.(muxListener).connections:
-	default:
+	for _, l := range ls {
+		select {
+		case conn = <-l.(muxListener).connections:
+		default:
+		}
+		if conn != nil {
+			break
+		}
 	}
 	v.Assert(conn != nil, "C17.read.connection-dispatched")
 	var got []byte
